@@ -44,7 +44,7 @@ func runC07s(rc *RunCtx) {
 		return c
 	}
 	cfg := mk(0)
-	N := []int{0, 1, 3, 50, 1000}[G.Draw(5)]
+	N := []int{0, 1, 2, 3, 5, 8, 50, 1000}[G.Draw(8)]
 	rc.D("history %d; config %s", N, describeCfg(cfg))
 	ms, err := newMainSim(rc, N, cfg)
 	if err != nil {
@@ -68,6 +68,9 @@ func runC07s(rc *RunCtx) {
 	var seen []*rec
 	checks := 0 // authenticated handshakes the server has checked so far
 	nOps := 2 + G.Draw(8)
+	if G.Draw(3) == 0 {
+		nOps = 8 + G.Draw(10) // long enough for a replay from the far end of a small history
+	}
 	for op := 0; op < nOps; op++ {
 		addrs := tcpAddrs(cfg)
 		addr := addrs[G.Draw(len(addrs))]
@@ -113,6 +116,9 @@ func runC07s(rc *RunCtx) {
 		default:
 			// replay of an earlier handshake, on any listener of any service, possibly after reloads
 			r := seen[G.Draw(len(seen))]
+			if G.Draw(3) == 0 {
+				r = seen[0] // the one presented longest ago
+			}
 			between := checks - r.checks
 			dr := len(ms.W.Dials)
 			if N > 0 && between <= N-1 && G.Draw(4) == 0 {
